@@ -88,6 +88,7 @@ Definition reload_ok_ev (x : ev) : bool := match x with EReload _ true => true |
 Definition push_same_ok (l : list ev) (mis : list nat) : bool :=
   forallb (fun i => match nth_error l i with
                     | Some (EApi _ _ true) => existsb reload_ok_ev (skipn (S i) l)
+                    | Some (EWrite _ _ _) => existsb reload_ok_ev (skipn (S i) l)   (* an upstream changed in the file and was not pushed *)
                     | _ => true
                     end) mis.
 
